@@ -116,6 +116,16 @@ func genModel(p *simkit.Plan, r *simkit.Rand, tier string) {
 	for i := r.Range(0, 8); i > 0; i-- {
 		genEdit(r, p, "init", &id, untracked)
 	}
+	dockerPaths := []string{"ig/x", "ig/a/s", "ig/a/b/p", "ig/a/b/q", "ig/c/t"}
+	if p.Scenario == "disk-untracked" && r.Chance(1, 3) {
+		// Docker-style ignores: an ignored directory that is traversed under a
+		// mask (see configure), holding different content on the two sides.
+		c["docker_ignores"] = 1
+		for i := r.Range(2, 6); i > 0; i-- {
+			id++
+			p.Ops = append(p.Ops, simkit.Op{Actor: "init", Kind: "put", N: []int64{id, 0}, S: []string{simkit.Pick(r, []string{"alpha", "beta"}), simkit.Pick(r, dockerPaths)}})
+		}
+	}
 	if r.Chance(1, 3) {
 		// Start from identical roots so that deletions and edits dominate.
 		c["mirror_init"] = 1
@@ -143,6 +153,16 @@ func genModel(p *simkit.Plan, r *simkit.Rand, tier string) {
 		wide := 0
 		if !onDisk && !lifecycle {
 			wide = 3
+		}
+		if c["docker_ignores"] == 1 && r.Chance(1, 4) {
+			// The user works inside the ignored directory.
+			id++
+			side, path := simkit.Pick(r, []string{"alpha", "beta"}), simkit.Pick(r, dockerPaths)
+			if r.Chance(2, 3) {
+				p.Ops = append(p.Ops, simkit.Op{Actor: "user", Kind: "put", N: []int64{id, 0}, S: []string{side, path}})
+			} else {
+				p.Ops = append(p.Ops, simkit.Op{Actor: "user", Kind: "del", S: []string{side, path}})
+			}
 		}
 		switch r.Weighted([]int{50, 15, 20, wide}) {
 		case 3:
@@ -432,14 +452,27 @@ func genModel(p *simkit.Plan, r *simkit.Rand, tier string) {
 		if !(c["mode"] >= 2 && nside == "beta") { // one-way: edits on beta do not travel
 			path := simkit.Pick(r, []string{"a", "b", "d", "a/b/c"})
 			id++
-			pre := []simkit.Op{{Actor: "init", Kind: "put", N: []int64{id, int64(r.Intn(2))}, S: []string{"alpha", path}}}
+			// Or, instead of the user's mode flip: the storing side fails at one
+			// of the system calls that give the edited file its mode and move
+			// it into place (the file is executable there).
+			failing := r.Chance(1, 3)
+			exec := int64(r.Intn(2))
+			if failing {
+				exec = 1
+			}
+			pre := []simkit.Op{{Actor: "init", Kind: "put", N: []int64{id, exec}, S: []string{"alpha", path}}}
 			c["mirror_init"] = 1
 			p.Ops = append(pre, p.Ops...)
 			id++
 			p.Ops = append(p.Ops, simkit.Op{Actor: "client", Kind: "flush", N: []int64{1}},
 				simkit.Op{Actor: "user", Kind: "sleep", N: []int64{2000}},
-				simkit.Op{Actor: "user", Kind: simkit.Pick(r, []string{"edit", "put"}), N: []int64{id, 0}, S: []string{nside, path}},
-				simkit.Op{Actor: "user", Kind: "arm", N: []int64{int64(r.Range(1, 8)), id}, S: []string{pside, simkit.Pick(r, []string{"transition", "stage", "stage"}), "chmod", path}})
+				simkit.Op{Actor: "user", Kind: simkit.Pick(r, []string{"edit", "put"}), N: []int64{id, 0}, S: []string{nside, path}})
+			if failing {
+				p.Faults = append(p.Faults, simkit.Fault{Kind: "fs_errno", Key: pside + ".transition." + simkit.Pick(r, []string{"fchmod", "fchmod", "openat", "renameat"}), Nth: r.Range(1, 1000), Arg: int64(simkit.Pick(r, []int{1, 2})), S: simkit.Pick(r, []string{"r1", "r2", "r4"})})
+				p.Ops = append(p.Ops, simkit.Op{Actor: "client", Kind: "flush", N: []int64{1}})
+			} else {
+				p.Ops = append(p.Ops, simkit.Op{Actor: "user", Kind: "arm", N: []int64{int64(r.Range(1, 8)), id}, S: []string{pside, simkit.Pick(r, []string{"transition", "stage", "stage"}), "chmod", path}})
+			}
 		}
 	}
 	// Fault rules.
@@ -464,12 +497,16 @@ func genModel(p *simkit.Plan, r *simkit.Rand, tier string) {
 				Nth: r.Range(1, 60), Arg: id, S: simkit.Pick(r, kinds) + ":" + simkit.Pick(r, paths)})
 		}
 	}
-	if (p.Scenario == "disk" || p.Scenario == "disk-untracked" || p.Scenario == "disk-remote" || p.Scenario == "disk-edits") && r.Chance(1, 3) {
+	if (p.Scenario == "disk" || p.Scenario == "disk-untracked" || p.Scenario == "disk-remote" || p.Scenario == "disk-edits" || p.Scenario == "disk-exec") && r.Chance(1, 3) {
 		// System call failures inside scans, staging and transitions.
 		sites := [][2]string{{"transition", "openat"}, {"transition", "mkdirat"}, {"transition", "renameat"}, {"transition", "renameat"}, {"transition", "unlinkat"},
 			{"transition", "fchmod"}, {"transition", "symlinkat"}, {"transition", "fstatat"}, {"transition", "readdir"},
 			{"scan", "openat"}, {"scan", "read"}, {"scan", "fstatat"}, {"scan", "readdir"}, {"scan", "readlinkat"},
 			{"stage", "openat"}, {"supply", "read"}, {"supply", "openat"}, {"receive", "openat"}}
+		if p.Scenario == "disk-exec" {
+			// Where a file is given its mode and moved into place.
+			sites = [][2]string{{"transition", "openat"}, {"transition", "fchmod"}, {"transition", "fchmod"}, {"transition", "renameat"}, {"transition", "fstatat"}, {"scan", "openat"}}
+		}
 		for k := r.Range(1, 2); k > 0; k-- {
 			site := simkit.Pick(r, sites)
 			errno := int64(simkit.Pick(r, []int{1, 2, 3})) // EIO, EACCES, ENOSPC
